@@ -191,7 +191,48 @@ def run(ctx, scale=1):
             if hits:
                 out_fail.append({"input": {"kind": "user-manager-under-with_timeout", "manager": kind, "stored": stored, "given": given}, "what": "password fragment %r in a %s record of %s (%s): %r" % (hits[0][4], hits[0][1], hits[0][0], hits[0][2], hits[0][3][-300:]), "signature": "C20:user-manager-failure-leak"})
 
+    async def late_reply(cap):
+        """a client with a socket_timeout whose PASS is answered too late (or never): whatever the client then logs or
+        raises on the way must not carry the password"""
+
+        def make(delay):
+            class Manager(aioftp.MemoryUserManager):
+                async def authenticate(self, user, password):
+                    await asyncio.sleep(delay)
+                    return await super().authenticate(user, password)
+
+            return Manager
+
+        for i in range(3 * scale):
+            stored, c1 = c20.make_password(rng, "bare")
+            given, c2 = c20.make_password(rng, ("bare", "percent", "nonascii")[i % 3])
+            if i % 2:
+                given, c2 = stored, c1
+            server = aioftp.Server(make(0.4)([aioftp.User("bob", stored)]))
+            await server.start("127.0.0.1", 0)
+            cap.take()
+            client = aioftp.Client(socket_timeout=0.1)
+            outcome = "logged in"
+            try:
+                await asyncio.wait_for(client.connect("127.0.0.1", server.server_port), 2)
+                await asyncio.wait_for(client.login("bob", given), 2)
+            except Exception as e:  # noqa
+                outcome = "client raised %s" % type(e).__name__
+                if any(c and c in str(e) for c in c1 + c2):
+                    out_fail.append({"input": {"kind": "late-reply", "stored": stored, "given": given}, "what": "the exception the client raised carries the password: %r" % str(e)[:200], "signature": "C20:late-reply-leak"})
+            client.close()
+            await asyncio.sleep(0.5)
+            await server.close()
+            recs = cap.take()
+            res.cases += 1
+            res.count("late_pass_reply:" + outcome)
+            res.distinct.add(("late-reply", i % 3, i % 2))
+            hits = c20.canary_hits(recs, c1 + c2)
+            if hits:
+                out_fail.append({"input": {"kind": "late-reply", "stored": stored, "given": given}, "what": "password fragment %r in a %s record of %s (%s) after the reply to PASS did not arrive within socket_timeout: %r" % (hits[0][4], hits[0][1], hits[0][0], hits[0][2], hits[0][3][-300:]), "signature": "C20:late-reply-leak"})
+
     async def main(cap):
+        await late_reply(cap)
         await scripted(cap)
         await mismatch(cap)
         await limits(cap)
